@@ -63,6 +63,11 @@ def corpus():
                       W.emit(OWN, MAPPER, 8, [(1, 0, S1, OWN)], count=0xFFFF)]),
         dict(name="discover-count-beyond-frame", wifi=0, mtu=1500, setup=[],
              request=[W.discover(MAPPER, 0x0101, 0x0202, [S1], tos=0, count=0xFFFF)]),
+        # a Train: the same (Ethernet source, real source) pair several times, then another pair, then the Query
+        dict(name="train-repeat-query", wifi=0, mtu=1500, setup=[disc],
+             request=probes(1) * 4 + probes(1, base=7) * 2 + [W.query(OWN, MAPPER, 9)]),
+        # jumbo frames: more observations pending than a 1500-byte QueryResp carries
+        dict(name="probes-100-query-jumbo", wifi=0, mtu=9000, setup=[disc] + probes(100), request=[W.query(OWN, MAPPER, 9), W.query(OWN, MAPPER, 10)]),
         dict(name="qlt-offset-past-end", wifi=0, mtu=1500, setup=[disc],
              request=[W.qlt(OWN, MAPPER, 3, 0x0E, 0x7FFF), W.qlt(OWN, MAPPER, 4, 0x11, 0x7FFF), W.qlt(OWN, MAPPER, 5, 0x13, 65)]),
     ]
@@ -75,7 +80,7 @@ CONT = [W.discover(MAPPER, 5, 6, [], tos=0), W.probe(OWN, S1, OWN, S1), W.query(
 def build_scn(sid, c, fault_lines, getter_fail=None, failrc=-1):
     cfg = cfg_for(c["wifi"], c["mtu"])
     s = H.Scenario(sid, meta=dict(base=c["name"], nreq=len(c["request"]), nsetup=len(c["setup"]), flow=bool(c.get("flow")),
-                                  getter_fail=getter_fail, mtu=c["mtu"]))
+                                  getter_fail=getter_fail, mtu=c["mtu"], request_frames=list(c["request"])))
     kw = H.iface_kw(cfg)
     s.iface(0, **kw)
     s.iface(1, **kw)
@@ -172,6 +177,35 @@ def make_monitor(refs):
                 probs = [p for p in probs if p != "real-source-not-own"]
             for p in probs:
                 bad("malformed-frame-under-fault:%s" % p.split(":")[0], "%s frame=%s" % (p, raw.hex()[:160]))
+        if meta.get("kind") == "alloc":
+            # observations: a Probe/Train whose own handling was not hit by the fault is recorded as usual, so every pair
+            # seen in such a frame is listed by the Queries that follow (when those were not hit either and drained the list)
+            want, listed, q_ok, last_more = set(), set(), True, False
+            for i in req:
+                for e in i.sends():
+                    raw = e[3]
+                    if raw and len(raw) >= 34 and raw[17] == W.OP_QUERYRESP:
+                        more, _err, _n, descs = W.queryresp_fields(raw)
+                        last_more = more
+                        for (_kind, rsrc, esrc, _edst) in descs:
+                            listed.add((esrc, rsrc))
+            rfr = sobj.meta.get("request_frames", [])
+            for k, i in enumerate(req):
+                if k >= len(rfr):
+                    break
+                fr = rfr[k]
+                refused = any(e[0] == "m" for e in i.ev)
+                if fr[17] in (W.OP_PROBE, W.OP_TRAIN) and fr[18:24] == OWN and not refused:
+                    want.add((fr[6:12], fr[24:30]))
+                if fr[17] == W.OP_QUERY and (refused or i.out is None or i.out[0] != 1):
+                    q_ok = False
+            if want and q_ok and not last_more and any(f[17] == W.OP_QUERY for f in rfr):
+                rep.count("observation_sets_compared_under_allocation_failure")
+                lost = want - listed
+                if lost:
+                    bad("observation-from-an-unaffected-probe-lost:alloc", "pairs %s were seen in Probe/Train frames whose handling was not hit by "
+                        "the fault, the Queries were answered and drained the list, yet they are not reported (listed: %d)"
+                        % (sorted((a.hex(), b.hex()) for a, b in lost)[:4], len(listed)))
         if ref is not None and meta.get("kind") in ("alloc", "send"):
             a = [proj(r) for r in sent]
             b = ref["proj"]
@@ -376,6 +410,7 @@ def run(ctx):
     rep.need("runs:alloc", c.get("runs:alloc", 0), 50)
     rep.need("runs:send", c.get("runs:send", 0), 30)
     rep.need("runs:getter", c.get("runs:getter", 0), 500)
+    rep.need("observation_sets_compared_under_allocation_failure", c.get("observation_sets_compared_under_allocation_failure", 0), 20)
     rep.need("hellos_compared_under_getter_failure", c.get("hellos_compared_under_getter_failure", 0), 300)
     rep.need("runs:getter-positive-return-code", c.get("runs:getter-positive-return-code", 0), 100)
     rep.need("runs:ctor", c.get("runs:ctor", 0), 24)
